@@ -64,7 +64,12 @@ def check_object(t, v, obj, ctx, res, vmode):
         f = dict(f0, action=action, last_kind=lt[0] if lt else None, n_index=len(idx), through_ref="*" in vpath, path_len=len(vpath))
         out.append(common.violation("C02." + action, failure, f, dict(type=t, type_str=xt.show(t), vmode=vmode, vpath=common.jsonable(list(vpath)), index=list(idx), action=action), detail))
 
-    for c in cseam.calls_for_object(t, v, obj):
+    calls = list(cseam.calls_for_object(t, v, obj))
+    for ci, c in enumerate(calls):
+        if ci == len(calls) // 2 and ci > 0:
+            obj._buffer.grow(8)  # relocation between two series of calls of the same kernels
+            res.events["grow-between-calls"] += 1
+        base = cseam.base_address(obj._buffer)
         action, kern, idx, vpath, lt = c["action"], c["kern"], c["idx"], c["vpath"], c["lt"]
         kw = {"i%d" % k: int(i) for k, i in enumerate(idx)}
         res.transitions += 1
